@@ -10,7 +10,7 @@ CHECKS = {
         text="Static, exhaustive over the code: every store into the code-point mapping is guarded by absence and the duplicate "
              "raises InvalidFontData which no handler on a compile path can swallow; one glyph order feeds all ordered emissions; "
              ".notdef precedes order computation on all paths; BMP split and UVS branch structure. Necessary structural clauses "
-             "only; the ordering function itself is not evaluated.",
+             "only; the ordering function itself is not evaluated. The compilers never fill in or override their glyphOrder option (a source is ordered by the caller's argument or its own public.glyphOrder).",
         design_ref="DESIGN.md §5 C03", note=STATIC_NOTE,
         technique="static analysis: CFG control-dependence + dominance rules, call-graph exception-handler audit"),
     "C12": dict(
@@ -33,7 +33,7 @@ CHECKS = {
              "constructors); both sibling filters decompose with include=<skip set>, decomposeNested=False, delete every skipped glyph "
              "and report it; every lib-derived assignment of the compiler's skip list is guarded by 'is None' (argument wins); kerning "
              "groups, recorded pairs (guard formulas by propositional entailment, both kern writers, static and variable) and GDEF "
-             "classes are restricted to the filtered glyph set. Rendering equality of remaining glyphs is not decided.",
+             "classes are restricted to the filtered glyph set. Rendering equality of remaining glyphs is not decided. The kern writers' mark filtering set only lists exported glyphs and the IgnoreMarks / filtering-set decision is made on its members; scripts are guessed from exported glyphs only.",
         design_ref="DESIGN.md §5 C13", note=STATIC_NOTE,
         technique="static analysis: CFG dominance/path rules, sibling agreement, guard entailment over control-dependence facts"),
     "C07": dict(
@@ -51,7 +51,7 @@ CHECKS = {
              "typestate 'context read only after set_context' on every __call__; mutation-then-constant-False-return paths excluded "
              "(CFG path rule with mutation summaries of helper functions and a flag-feasibility refinement); every glyph-set insertion / "
              "deletion is reported; ownership analysis seeded at the filters' font parameter shows no write to the font (6 listed known "
-             "findings); include+exclude raise. Does not decide that reported/unreported glyphs really did/did not change.",
+             "findings); include+exclude raise. Does not decide that reported/unreported glyphs really did/did not change. Memoising decorators on filter methods are violations (shared with C08).",
         design_ref="DESIGN.md §5 C14, §3 E3/E8", note=STATIC_NOTE,
         technique="static analysis: typestate via dominators, CFG path rules with interprocedural mutation summaries, ownership analysis, guard entailment"),
     "C20": dict(
@@ -59,7 +59,7 @@ CHECKS = {
              "(explicit script/language statements from code-point-derived scripts vs. bare lookups that depend on languagesystem), "
              "derived from the statement kinds reachable from each writer's _write. All writers must share one mode unless something "
              "generates languagesystem statements. Today's mismatch (kern explicit, mark and curs implicit) is a genuine defect recorded "
-             "as two known findings; any further writer or mode change is a new violation. Where scripts are registered explicitly the languages under a tag are those declared for that tag; writers keep no per-font state / memoised classification. The compiled ScriptList is not evaluated.",
+             "as two known findings; any further writer or mode change is a new violation. Where scripts are registered explicitly the languages under a tag are those declared for that tag; writers keep no per-font state / memoised classification. The compiled ScriptList is not evaluated. getScriptLanguageSystems files every declared language under the statement's own OT script tag.",
         design_ref="DESIGN.md §5 C20", note=STATIC_NOTE,
         technique="static analysis: per-writer reachability over the call graph + sibling agreement on emitted statement kinds"),
     "C18": dict(
@@ -76,7 +76,7 @@ CHECKS = {
              "(default, forwarding to the pen whose signature is parsed from fontTools, no call site switches it off); advance widths / "
              "heights / charstring widths flow through otRound on every reaching definition; roundTolerance reaches the pen; builtin "
              "round/int/floor/ceil only at 11 reviewed sites; negative advances raise before being stored; each glyph is drawn exactly once "
-             "and directly into its T2CharStringPen. no rounding of glyph geometry inside the pre-processing filters / decomposition helper (reviewed exceptions); components are only resolved by util.decomposeCompositeGlyph. Equality of drawn coordinates with the source is not decided.",
+             "and directly into its T2CharStringPen. no rounding of glyph geometry inside the pre-processing filters / decomposition helper (reviewed exceptions); components are only resolved by util.decomposeCompositeGlyph. Equality of drawn coordinates with the source is not decided. The outline compilers generate a glyph only for a name the glyph set lacks (a source glyph is never replaced by a generated one).",
         design_ref="DESIGN.md §5 C01", note=STATIC_NOTE,
         technique="static analysis: value-flow (reaching definitions) sanitiser rule for otRound, CFG dominance/path rules, reviewed coercion whitelist"),
     "C02": dict(
@@ -84,7 +84,7 @@ CHECKS = {
              "propositional evaluation of the guards over all option assignments (filter applied iff the options say so); option->keyword "
              "bindings; the absolute-error formula (structure, per-master UPM); cubic-in-glyf0 guard; glyphDataFormat tied to allQuadratic; "
              "cycle rejection reachable from maxp/glyf and not swallowed by any handler; depth-ordered glyf assembly; otRound/noRound "
-             "selection; option plumbing by name. nested transformations composed as outer o inner with fontTools' Transform algebra, no hand-assembled Transform; components only resolved by util.decomposeCompositeGlyph. The cu2qu error bound and point equality are not decided.",
+             "selection; option plumbing by name. nested transformations composed as outer o inner with fontTools' Transform algebra, no hand-assembled Transform; components only resolved by util.decomposeCompositeGlyph. The cu2qu error bound and point equality are not decided. Per-run accumulators of interpolatable filters are per master; contours are only redrawn through the cu2qu conversion pen and layers already marked quadratic are left alone; the .notdef the compiler adds is drawn in the output flavour's direction and only when the source has none.",
         design_ref="DESIGN.md §5 C02", note=STATIC_NOTE,
         technique="static analysis: exhaustive guard evaluation (decision table), sibling agreement, formula-shape matching after local inlining, call-graph handler audit"),
     "C08": dict(
@@ -96,7 +96,7 @@ CHECKS = {
              "restored in finally, cached options only filled when None; every public compile function builds its own compiler, no "
              "module-/class-level container is mutated at call time; member-adding/removing writes to the caller's sources (ownership "
              "analysis of C07) are history dependence (2 listed known findings); glyph copies use only the UFO glyph protocol. Byte "
-             "identity itself and defcon/ufoLib2 behavioural differences are not decided.",
+             "identity itself and defcon/ufoLib2 behavioural differences are not decided. Filter objects keep no state outside the per-call context (shared with C14).",
         design_ref="DESIGN.md §5 C08, §3 E4", note=STATIC_NOTE + " Assumes dict iteration order is content (insertion order) and that glyph-class "
              "literals / coverage sets are order-neutral sinks.",
         technique="static analysis: set-kind inference + order-observation site classification with linked sanitiser obligations, nondeterminism-source whitelist, save/restore pairing in try/finally, shared-state mutation scan, ownership analysis"),
@@ -119,7 +119,7 @@ CHECKS = {
              "written and read under anchor.key, argument roles of _defineMarkClass / MarkClassDefinition; ligature components "
              "range(1, max+1) with [] for gaps and numbering >= 1; statement-class table against fontTools; attachment filters "
              "(numbered / class-less / mark glyphs); parseAnchorName prefix logic. no coordinate tested by truthiness; abvm / not-abvm sets cover the glyph set; markGlyphNames filled under the same guards as the mark classes; class name carried over after a name clash. Resulting offsets, lookup grouping and abvm/blwm "
-             "routing are not decided.",
+             "routing are not decided. A coordinate passes through at most one rounding step on its way out of _getAnchor; base / ligature attachments are entailed to be for non-mark glyphs inside the GDEF class when GDEF classes exist.",
         design_ref="DESIGN.md §5 C06", note=STATIC_NOTE,
         technique="static analysis: argument-role agreement against parsed fontTools signatures, coordinate leaf tracing through reaching definitions, guard facts from control dependence, class-attribute tables"),
     "C09": dict(
@@ -153,7 +153,7 @@ CHECKS = {
              "invalid-character filter and _unique_name, _unique_name records what it returns, names of glyphs that are not renamed "
              "are reserved first (a genuine defect here was fixed in /repo f6ec7ac); decision structure from argument / three lib keys; "
              "uni/u naming rule; the invalid-character pattern (regex AST) is exactly the complement of [0-9A-Za-z_.]. Byte identity "
-             "of the other tables is produced by fontTools' compile/reload and is NOT decided.",
+             "of the other tables is produced by fontTools' compile/reload and is NOT decided. The CFF CharStrings are re-keyed iff the table is CFF or an already decompiled CFF2 (truth table of the guard).",
         design_ref="DESIGN.md §5 C11", note=STATIC_NOTE,
         technique="static analysis: dominance rules, element-wise mapping shape rules, value-origin sanitiser rule, guard facts, regex-AST evaluation of the character class"),
     "C15": dict(
@@ -176,7 +176,7 @@ CHECKS = {
              "existing marker-less tags, overrides defer to the base test; GSUB writers run first; shipped writers declare GPOS/GDEF and "
              "construct none of feaLib's substitution statements (class list parsed from fontTools); user features parsed once and "
              "serialised from the same object; markers only in top-level blocks, first per tag. Marker index arithmetic and GSUB byte "
-             "identity are not decided.",
+             "identity are not decided. include() resolves against the UFO's parent directory with and without writers; generated glyph classes never take a class name the feature file already defines.",
         design_ref="DESIGN.md §5 C17", note=STATIC_NOTE,
         technique="static analysis: mutation scan with reviewed-site table and linked obligations, guard facts through call sites, class-attribute tables against parsed fontTools classes"),
     "C19": dict(
